@@ -6,11 +6,6 @@ def insById {α : Type} (x : Nat × α) : List (Nat × α) → List (Nat × α)
   | y :: ys => if x.1 ≤ y.1 then x :: y :: ys else y :: insById x ys
 def byId {α : Type} (l : List (Nat × α)) : List α := (l.foldr insById []).map (·.2)
 
-def insFrac (x : Frac) : List Frac → List Frac
-  | [] => [x]
-  | y :: ys => if Frac.le x y then x :: y :: ys else y :: insFrac x ys
-def sortAsc (l : List Frac) : List Frac := l.foldr insFrac []
-
 def fracs (l : List Frac) : String := " ".intercalate (l.map Frac.render)
 
 def out {α : Type} (f : α → String) : Except Err α → String
@@ -42,8 +37,43 @@ def handle (ws : List String) : String :=
   | "ages" :: prec :: fmax :: fmin :: intOnly :: rest =>
     match parsePrec prec, parseBool fmax, parseBool fmin, parseBool intOnly, parseTree rest with
     | some p, some fx, some fn, some io, some (t, []) =>
-      out (fun a => fracs (byId a.ages) ++ " | " ++ fracs (sortAsc (a.returned io))) (calcNodeAges ⟨p, fx, fn⟩ t)
+      -- every node's age by id, then the returned list in the order `calc_node_ages` builds it (post-order)
+      out (fun a => fracs (byId a.ages) ++ " | " ++ fracs (a.returned io)) (calcNodeAges ⟨p, fx, fn⟩ t)
     | _, _, _, _, _ => "bad-op"
+  | "nodeages" :: prec :: fmax :: fmin :: intOnly :: rest =>
+    -- `Tree.node_ages` / `Tree.internal_node_ages`: the sorted list
+    match parsePrec prec, parseBool fmax, parseBool fmin, parseBool intOnly, parseTree rest with
+    | some p, some fx, some fn, some io, some (t, []) => out fracs (nodeAges ⟨p, fx, fn⟩ io t)
+    | _, _, _, _, _ => "bad-op"
+  | "coal" :: rest =>
+    match parseTree rest with
+    | some (t, []) => out fracs (coalIntervals t)
+    | _ => "bad-op"
+  | "rdlist" :: leafOnly :: rest =>
+    match parseBool leafOnly, parseTree rest with
+    | some lo, some (t, []) => out fracs (rootDistList lo t)
+    | _, _ => "bad-op"
+  | "maxdist" :: rest =>
+    match parseTree rest with
+    | some (t, []) => out Frac.render (maxDistFromRoot t)
+    | _ => "bad-op"
+  | "tmdepths" :: intOnly :: rest =>
+    match parseBool intOnly, parseTree rest with
+    | some io, some (t, []) => out fracs (tmNodeDepths io t)
+    | _, _ => "bad-op"
+  | "tmages" :: intOnly :: rest =>
+    match parseBool intOnly, parseTree rest with
+    | some io, some (t, []) => out fracs (tmNodeAges io t)
+    | _, _ => "bad-op"
+  | "distroot" :: rest =>
+    match parseTree rest with
+    | some (t, []) =>
+      "ok " ++ " ".intercalate ((byId (distFromRoot t)).map fun v => match v with | .ok f => f.render | .error e => e.render)
+    | _ => "bad-op"
+  | "disttip" :: rest =>
+    match parseTree rest with
+    | some (t, []) => "ok " ++ fracs (byId (distFromTip t))
+    | _ => "bad-op"
   | "setlen" :: minLen :: errNeg :: ages :: rest =>
     match parsePrec minLen, parseBool errNeg, (ages.splitOn ",").mapM Frac.parse, parseTree rest with
     | some m, some en, some as, some (t, []) =>
